@@ -294,6 +294,9 @@ class C02(core.Prop):
         're.match enters as a table computed with the real re',
     ]
 
+    def revive(self, case):
+        return cx.revive(case)
+
     def corpus(self):
         return [
             {'frame': {'nrows': 2, 'cols': [{'name': 'a', 'fam': 'float64', 'cells': [-8.0, 4.0]}]},
